@@ -120,8 +120,11 @@ def attach_clone(prop="C13"):
         root = S.root_of(self)
         path = S.path_from_root(self)
         _DEPTH[0] += 1  # the inner clone() calls are part of this operation
+        err = None
         try:
             res = orig(self, node)
+        except Exception as e:
+            err = e
         finally:
             _DEPTH[0] -= 1
         rec = core.REC
@@ -129,6 +132,11 @@ def attach_clone(prop="C13"):
         rec.arm("clone_from_root")
         sh = S.shadow(root)
         w = {"node_path": "".join(path or []), "tree": S.to_json(sh), "ids_preorder": _ids(root)}
+        if err is not None:
+            if not S.audit(root, expr=False):
+                w["summary"] = f"clone_from_root via the node at {''.join(path or []) or 'root'} of '{S.text_of(root)}' raised {type(err).__name__}: {str(err)[:80]}"
+                rec.violation(prop, "clone_from_root/raises", "clone_from_root raised on a well-linked tree", w)
+            raise err
         try:
             new_root = S.root_of(res)
         except Exception:
